@@ -106,12 +106,29 @@ def analyse(fn):
         if isinstance(n, ast.AugAssign) and isinstance(n.target, ast.Name):
             stores[n.target.id] = stores.get(n.target.id, 0) + 1
     locs = [n for n in order if n not in params and n not in banned]
-    # alias candidates: top-level single assignment `name = chain`
+    # alias candidates: single assignment `name = chain`, at the top level or in a nested block; every read of the name lies in the
+    # statements that follow the assignment in the same block (its region), and the region does not store to the chain or a prefix
+    def blocks(node):
+        for name in ("body", "orelse", "finalbody"):
+            b = getattr(node, name, None)
+            if isinstance(b, list) and b and isinstance(b[0], ast.stmt):
+                yield b
+                for st in b:
+                    if not isinstance(st, SCOPES):
+                        yield from blocks(st)
+        for h in getattr(node, "handlers", []) or []:
+            yield from blocks(h)
     aliases = {}
-    for st in fn.body:
-        if isinstance(st, ast.Assign) and len(st.targets) == 1 and isinstance(st.targets[0], ast.Name):
+    all_loads = {}
+    for x in _ordered(fn):
+        if isinstance(x, ast.Name) and isinstance(x.ctx, ast.Load):
+            all_loads.setdefault(x.id, []).append(x)
+    for block in blocks(fn):
+        for i, st in enumerate(block):
+            if not (isinstance(st, ast.Assign) and len(st.targets) == 1 and isinstance(st.targets[0], ast.Name)):
+                continue
             nm = st.targets[0].id
-            if nm not in locs or stores.get(nm, 0) != 1:
+            if nm not in locs or stores.get(nm, 0) != 1 or nm in aliases:
                 continue
             ch = chain_text(st.value)
             if ch is None or ("." not in ch and ch not in aliases):
@@ -124,21 +141,27 @@ def analyse(fn):
                 continue
             if root in stores:          # the root parameter is re-bound somewhere
                 continue
+            region = block[i + 1:]
+            in_region = {id(x) for r_ in region for x in _ordered(r_)} | {id(x) for r_ in region for x in ast.walk(r_)}
+            if block is not fn.body and not all(id(x) in in_region for x in all_loads.get(nm, [])):
+                continue
+            # stores to the chain (or a prefix) inside the region
+            bad = False
+            for r_ in region:
+                for x in ast.walk(r_):
+                    if isinstance(x, ast.Attribute) and isinstance(x.ctx, (ast.Store, ast.Del)):
+                        t = chain_text(x)
+                        if t:
+                            r0 = t.split(".")[0]
+                            if r0 in aliases:
+                                t = aliases[r0] + t[len(r0):]
+                            elif r0 == nm:
+                                t = ch + t[len(r0):]
+                            if ch == t or ch.startswith(t + "."):
+                                bad = True
+            if bad:
+                continue
             aliases[nm] = ch
-    # a chain the function stores to (or a prefix of it) is not a stable alias
-    if aliases and attr_stores:
-        stored = set()
-        for a in attr_stores:
-            t = chain_text(a)
-            if t:
-                r = t.split(".")[0]
-                if r in aliases:
-                    t = aliases[r] + t[len(r):]
-                stored.add(t)
-        for nm in list(aliases):
-            if any(aliases[nm] == s or aliases[nm].startswith(s + ".") for s in stored):
-                del aliases[nm]
-        # aliases built on a removed alias keep their resolved text (still a valid chain of self/params)
     return [n for n in locs if n not in aliases], aliases
 
 
@@ -266,15 +289,21 @@ def _pure(e):
 
 
 def _reads(e):
-    """names and attribute chains read by expression e"""
+    """names and maximal attribute chains read by expression e (`self.a.b[self.k]` reads `self.a.b` and `self.k`, not `self`)"""
     out = set()
-    for x in ast.walk(e):
-        if isinstance(x, ast.Name):
-            out.add(x.id)
-        elif isinstance(x, ast.Attribute):
+
+    def rec(x):
+        if isinstance(x, ast.Attribute):
             t = chain_text(x)
             if t:
                 out.add(t)
+                return
+        if isinstance(x, ast.Name):
+            out.add(x.id)
+            return
+        for c in ast.iter_child_nodes(x):
+            rec(c)
+    rec(e)
     return out
 
 
@@ -291,12 +320,25 @@ def _written(fn):
             tg = [x.target]
         elif isinstance(x, ast.Delete):
             tg = x.targets
+        def add_target(t):
+            # the maximal chain that is stored to (`self.h = ..` writes `self.h`, not `self`; `a.b[i] = ..` writes `a.b`)
+            if isinstance(t, (ast.Tuple, ast.List)):
+                for e_ in t.elts:
+                    add_target(e_)
+            elif isinstance(t, ast.Starred):
+                add_target(t.value)
+            elif isinstance(t, ast.Subscript):
+                add_target(t.value)
+            elif isinstance(t, (ast.Name, ast.Attribute)):
+                c = chain_text(t)
+                if c:
+                    out.add(c)
+                else:
+                    for y in ast.walk(t):
+                        if isinstance(y, ast.Name):
+                            out.add(y.id)
         for t in tg:
-            for y in ast.walk(t):
-                if isinstance(y, (ast.Name, ast.Attribute)):
-                    c = chain_text(y)
-                    if c:
-                        out.add(c)
+            add_target(t)
         if isinstance(x, ast.Call) and isinstance(x.func, ast.Attribute) and x.func.attr in (
                 "append", "extend", "update", "pop", "clear", "insert", "remove", "sort", "fill", "put", "ipadd", "ipset"):
             c = chain_text(x.func.value)
